@@ -5,7 +5,7 @@ import re
 import numpy as np
 from hypothesis import strategies as st
 
-from .. import e2e, ffmodel, strat, topo
+from .. import colfmt, e2e, ffmodel, strat, topo
 from ..core import Part, Result
 
 ID = "C03"
@@ -198,12 +198,65 @@ def check_na(case):
     return res
 
 
+# ------------------------------------------------------------------ output naming schemes (exhaustive table)
+def ffout_cases(tier="quick"):
+    """Every amino-acid input name x chain position x output naming scheme x force field (quick tier:
+    one force field per (scheme, name, position) cell, rotating; thorough: all six)."""
+    from . import c06
+
+    out = []
+    k = 0
+    for scheme in strat.FFS:
+        for name in topo.AA20 + topo.VARIANTS:
+            for pos in "NMC":
+                k += 1
+                ffs = strat.FFS if tier != "quick" else [strat.FFS[k % len(strat.FFS)]]
+                for ff in ffs:
+                    out.append(dict(part="ffout", chain=c06._context(k % 3, name, pos), ff=ff, scheme=scheme, name=name, pos=pos))
+    return out
+
+
+def check_ffout(case):
+    """--ffout only renames: the same atoms are written, and no residue is written with two atoms of
+    the same name (a naming rule that maps two atoms onto one native name loses one of them for
+    every reader of the file)."""
+    res = Result()
+    desc = dict(chains=[case["chain"]], waters=[])
+    ff, scheme = case["ff"], case["scheme"]
+    s0, r0 = e2e.run_case(desc, ff, ["--keep-chain"])
+    s1, r1 = e2e.run_case(desc, ff, ["--keep-chain", f"--ffout={scheme}"])
+    res.label(f"ff={ff}", f"scheme={scheme}", f"pos={case['pos']}")
+    if not r0.ok or not r1.ok:
+        res.label("run-failed")
+        if r0.ok and not r1.ok:
+            res.bad("C03:ffout:run-fails", f"{ff} --ffout={scheme} {case['name']}: {r1.exc_text[:100]}")
+        return res
+    l0 = colfmt.read_pqr_text(r0.pqr_text, False)
+    l1 = colfmt.read_pqr_text(r1.pqr_text, False)
+    if len(l0) != len(l1):
+        res.bad("C03:ffout:atom-count", f"{ff} --ffout={scheme} {case['name']} at {case['pos']}: {len(l0)} atoms without, {len(l1)} with the naming scheme")
+        return res
+    seen = {}
+    renamed = False
+    for a, b in zip(l0, l1):
+        key = (b["chain"], b["seq"], b.get("icode", ""))
+        if b["name"] in seen.setdefault(key, {}):
+            res.bad("C03:ffout:duplicate-name", f"{ff} --ffout={scheme}: residue {a['resn']} {key[1]} ({case['name']} at {case['pos']}) is written with "
+                    f"two atoms named {b['name']} ({seen[key][b['name']]} and {a['name']})")  # fmt: skip
+            break
+        seen[key][b["name"]] = a["name"]
+        renamed = renamed or b["name"] != a["name"] or b["resn"] != a["resn"]
+    res.nontrivial = renamed
+    return res
+
+
 def parts(tier):
     from . import c02, c16
 
     return [
         Part("ligand", check_ligand, strategy=c16.complex_case(), budget=dict(quick=160, thorough=3000)),
         Part("na", check_na, strategy=c02.na_case().map(lambda c: dict(c, part="na")), budget=dict(quick=160, thorough=3000)),
+        Part("ffout", check_ffout, cases=lambda: ffout_cases(tier), exhaustive=True),
         Part("e2e", check, strategy=case(), budget=dict(quick=640, thorough=12000)),
         Part("windows", check, strategy=window_case(), budget=dict(quick=240, thorough=5000)),
     ]
